@@ -16,6 +16,6 @@ CONSTANTS
   KeyShards <- NoKeyShards
   FaultBudget = 0
 VIEW View
-INVARIANTS InvDirValid InvDebris InvHandle InvNoErr InvReplaceOwn
+INVARIANTS InvDirValid InvDebris InvHandle InvNoErr InvReplaceOwn InvFdBound InvNoResidue
 PROPERTIES StepImmutable StepReadOnlyFirst StepRemoval StepDurableFirst StepROUntouched StepReplaceStores
 CHECK_DEADLOCK FALSE
